@@ -262,6 +262,21 @@ func (db *DB) replayAndSetupWriteAheadLog() error {
 		log.Printf("done replaying WAL in %v with %d records\n", elapsedDuration, numRecords)
 	}
 
+	// the replayed files are removed oldest first: os.RemoveAll removes in whatever order the file system lists
+	// a directory, and if the process stops halfway only an older file may be left, which the next Open would
+	// replay on top of the table written above and bring stale values back. A leftover of newer files is harmless.
+	walEntries, err := os.ReadDir(walBasePath)
+	if err != nil {
+		return err
+	}
+	for _, entry := range walEntries {
+		// os.ReadDir returns the entries sorted by name, the WAL file names ascend with age
+		err = os.RemoveAll(filepath.Join(walBasePath, entry.Name()))
+		if err != nil {
+			return err
+		}
+	}
+
 	err = os.RemoveAll(walBasePath)
 	if err != nil {
 		return err
